@@ -29,7 +29,7 @@ func (c12) Assumptions() []string {
 	return []string{"reduced scope: the Read* function of the same tree is the reference for what the reader accepts (C05/C04/C06/C13 own that); C12 decides only the store/no-store/offset behaviour around it"}
 }
 func (c12) Required(tier string) []string {
-	return []string{"T-prior", "null-with-nonzero-prior", "error-with-nonzero-prior", "success-overwrites-prior", "near-miss-null", "null-behind-whitespace", "dirty-scratch"}
+	return []string{"T-prior", "null-with-nonzero-prior", "error-with-nonzero-prior", "success-overwrites-prior", "near-miss-null", "null-behind-whitespace", "dirty-scratch", "scratch-reused-across-decodes"}
 }
 
 var decodeFns = []string{"DecodeBool", "DecodeFloat64", "DecodeInt64", "DecodeInt32", "DecodeInt", "DecodeUint64", "DecodeUint32", "DecodeUint", "DecodeString"}
@@ -44,7 +44,7 @@ func genDecodeInput(r *Rand, fn string) Doc {
 		"DecodeUint64":  {"0", "1", "18446744073709551615", "123456789012345678", "1234567890123456789", " 9"},
 		"DecodeUint32":  {"0", "4294967295", "65536"},
 		"DecodeUint":    {"0", "18446744073709551615", "31"},
-		"DecodeString":  {`""`, `"a"`, `"hello"`, `"\n"`, `"é😀"`, ` "x" `, `"a\\b",`, "\"\xff\xfe\""},
+		"DecodeString":  {`""`, `"a"`, `"hello"`, `"\n"`, `"é😀"`, ` "x" `, `"a\\b",`, "\"\xff\xfe\"", `"hello\nworld"`, `"HELLO\nwor\x"`, `"\tab\u00e9\ud83d\ude00 long enough to matter"`, `"\tAB\u00"`},
 	}
 	wrong := []string{"true", "1", `"s"`, "[]", "{}", "[1]", "-", "1.5", "1e2", "-1", "x", ":", ","}
 	rangeErr := []string{"9223372036854775808", "-9223372036854775809", "18446744073709551616", "2147483648", "-2147483649", "4294967296", "1e999", "-1e999", "99999999999999999999999", "1.0", "1e0", "-0.0"}
@@ -104,8 +104,13 @@ func (c12) Exec(sc *Scenario, st *Stats) *Violation {
 		d := sc.Docs[op.Doc]
 		data, ref := d.Bytes(), d.Bytes()
 		prior := *tg
+		prior.s = forcedCopy(tg.s) // a target that aliases the scratch buffer must not fool the comparison
 		if op.Kind == "DecodeString" && op.B != 0 {
-			scratch = mkDst(op.B, len(data))
+			if op.B%3 == 0 || scratch == nil {
+				scratch = mkDst(op.B, len(data))
+			} else {
+				st.probe("scratch-reused-across-decodes")
+			}
 			st.probe("dirty-scratch")
 		}
 		st.ev(op.Kind)
@@ -163,6 +168,9 @@ func (c12) Exec(sc *Scenario, st *Stats) *Violation {
 				p, err = rjson.DecodeString(data, &tg.s, sp)
 				got, priorV = tg.s, prior.s
 				readV, rp, rerr = wrap3(rjson.ReadString(ref, nil))
+				if rs, ok := readV.(string); ok {
+					readV = forcedCopy(rs)
+				}
 			default:
 				panic(harnessError("C12: unknown function " + op.Kind))
 			}
